@@ -68,7 +68,7 @@ TOY_TOK = ["\u017fTO", "\u017fto 5", "\u017fub", "\u0131nc", "\u017f", "0", "00"
            ".text", ".word", ".foo", ",", "LDA", "sto", "NOP", "BRZ", "v", "v:", "#", "007", "4095", "65536", "٣"]
 
 REGS = ["x0", "x1", "x2", "x5", "x6", "x7", "x10", "x11", "x17", "a0", "a1", "a7", "t0", "t1", "s0", "sp", "zero"]
-R3 = ["add", "sub", "sll", "slt", "sltu", "xor", "srl", "sra", "or", "and", "mul", "mulh", "div", "divu", "rem", "remu"]
+R3 = ["add", "sub", "sll", "slt", "sltu", "xor", "srl", "sra", "or", "and", "mul", "mulh", "div", "divu", "rem", "remu", "mulhu", "mulhsu"]
 IT = ["addi", "slti", "sltiu", "xori", "ori", "andi"]
 BR = ["beq", "bne", "blt", "bge", "bltu", "bgeu"]
 
@@ -166,7 +166,8 @@ def gen_riscv(r):
     body = []
     loop = r.random() < 0.4
     if loop:
-        body.append(f"li t2, {r.randint(1, 4)}")
+        # a few loops run long enough for counters to pass 256 / 1000 within one episode
+        body.append(f"li t2, {r.randint(1, 4) if r.random() < 0.96 else r.choice([40, 70, 130, 260])}")
         body.append("again:")
     for i in range(n):
         c = r.random()
@@ -178,8 +179,12 @@ def gen_riscv(r):
             body.append(f"li {wreg()}, {r.choice(['0', '-1', '2047', '2048', '-2049', '100000', '0x7fffffff', '0xffffffff', '4096', '0x800'])}")
         elif c < 0.63:
             body.append(f"mv {wreg()}, {reg()}")
-        elif c < 0.66:
+        elif c < 0.64:
             body.append("nop")
+        elif c < 0.66:
+            body.append(r.choice([f"{r.choice(['slli', 'srli', 'srai'])} {wreg()}, {reg()}, {r.choice([0, 1, 4, 31, 31, r.randint(0, 31)])}",
+                                  f"auipc {wreg()}, {r.choice([0, 1, 4, 0xfffff, r.randint(0, 0xfffff)])}",
+                                  f"lui {wreg()}, {r.choice([0, 1, 0x80000, 0xfffff, r.randint(0, 0xfffff)])}"]))
         elif c < 0.76 and has_data:
             v = f"v{r.randrange(len(data))}"
             idx = r.choice(["", "[0]", "[1]"])
